@@ -6,6 +6,7 @@ import (
 	"fmt"
 	"os"
 	"runtime"
+	"runtime/pprof"
 	"sort"
 	"strconv"
 	"strings"
@@ -407,6 +408,25 @@ func TestWorker(t *testing.T) {
 		}
 		enc.Encode(rep)
 		w.Flush()
+		if i%100 == 99 && outPath != "" && os.Getenv("VERIF_DEADLINE_MS") != "" {
+			// goroutines the system under test never ends (a ticker of a plugin without a Close) stay
+			// behind after their run and pin its heap: hand over to a fresh process before that hurts
+			var ms runtime.MemStats
+			runtime.ReadMemStats(&ms)
+			if ms.Sys > workerMemLimit {
+				w.Flush()
+				fmt.Printf("RECYCLE next=%d\n", seed+stride)
+				break
+			}
+		}
+		if i%200 == 199 && os.Getenv("VERIF_MEMSTAT") != "" {
+			var ms runtime.MemStats
+			runtime.ReadMemStats(&ms)
+			fmt.Fprintf(os.Stderr, "memstat runs=%d goroutines=%d heapInuse=%dMB stackInuse=%dMB sys=%dMB\n", i+1, runtime.NumGoroutine(), ms.HeapInuse>>20, ms.StackInuse>>20, ms.Sys>>20)
+		}
+	}
+	if os.Getenv("VERIF_MEMSTAT") == "2" {
+		pprof.Lookup("goroutine").WriteTo(os.Stderr, 1)
 	}
 	if simrt.RaceEnabled {
 		// the testing package marks the test failed as soon as the race detector has reported anything; the
@@ -487,5 +507,8 @@ func workerReplay(t *testing.T, path string) {
 }
 
 func sortStrings(s []string) { sort.Strings(s) }
+
+// workerMemLimit is the memory obtained from the OS above which a batch worker asks to be replaced.
+const workerMemLimit = 1200 << 20
 
 func isThorough() bool { return os.Getenv("VERIF_TIER") == "thorough" }
